@@ -29,6 +29,11 @@ type Verdict struct {
 	Side        string   // sender | dest | both | system | none
 	Charge      *uint64  // expected gas consumed by a successful sender-side execution (C16)
 	ChargeAlt   []uint64 // other acceptable values (same-shard NFT moves, see DESIGN C16)
+	// ChargeBand: the statement prices "copied bytes of each CROSS-SHARD NFT payload" and is silent about a move
+	// within one shard, where the code also charges for the (merged) token data it marshals.  There any charge
+	// base + k*unit with 0 <= k <= max is accepted: the function's own cost plus a whole number of copied bytes that
+	// does not exceed what the moved token data can occupy.
+	ChargeBand *[3]uint64 // base, unit, max
 	Labels      []string
 	Named       [][]byte // token identifiers named by the input (C05)
 	Suffixes    []string // exact balance keys (token + nonce) the input names; empty = only the token is known (C05)
@@ -296,6 +301,7 @@ func (m *Model) judgeNFTSender(c *Call, v *Verdict) {
 		sum := new(big.Int).Add(qty, m.acc(c.Shard, dest).bal(suffix))
 		v.Charge = u64p(base)
 		v.ChargeAlt = []uint64{base + pl*dcopy, base + payloadLen(typ, props, sum, e.Meta, reserved)*dcopy}
+		v.ChargeBand = &[3]uint64{base, dcopy, payloadLen(typ, props, sum, e.Meta, reserved) + 16}
 	} else {
 		v.Charge = u64p(base + pl*dcopy)
 	}
@@ -458,6 +464,7 @@ func (m *Model) judgeMultiSender(c *Call, v *Verdict, args [][]byte, n uint64) {
 	if dstLocal {
 		v.Charge = u64p(base)
 		v.ChargeAlt = []uint64{base + plQty*dcopy, base + plSum*dcopy}
+		v.ChargeBand = &[3]uint64{base, dcopy, plSum + 16*n}
 	} else {
 		v.Charge = u64p(base + plQty*dcopy)
 	}
